@@ -12,6 +12,6 @@ CONSTANTS
   GuardNilCancel = @@GUARD@@
 INIT Init
 NEXT Next
-INVARIANTS TypeOK ChainedHistory SwitchNeverFails FnOrder RunOnlyAfterStart StopFnIffStarted CtxCancelledBeforeStopFn StopFnGetsRunError ContextReleased WaitersExact NoDoubleClose FirstErrorWins ListenerOrder NotifierNeverBlocks @@NONIL@@ 
+INVARIANTS TypeOK ChainedHistory SwitchNeverFails FnOrder RunOnlyAfterStart StopFnIffStarted CtxCancelledBeforeStopFn StopFnGetsRunError ContextReleased ContextOnceStarted WaitersExact NoDoubleClose FirstErrorWins ListenerOrder NotifierNeverBlocks @@NONIL@@ 
 PROPERTIES LegalTransitions
 CHECK_DEADLOCK FALSE
